@@ -148,6 +148,23 @@ def run(rng, tier, model_ok):
         if len(res) == 2 and any(m not in got for m in must) and all("ok" in x for x, m in zip(res if q.startswith("(" + must[0]) else res[::-1], must)):
             failures.append({"input": q, "why": "the facts used by the successful expression(s) %s are not all reported: %s" % (must, got)})
     stats["multi_expression_queries"] = len(multi)
+    # several results of one query that use the same fact, and several queries appending to the descriptions of the same run: every
+    # lookup is reported, in evaluation order, however often the phrase has been reported before
+    rep_items = []
+    for _ in range(25 if tier == "quick" else 300):
+        a, b = rng.choice(facts2), rng.choice(facts2)
+        rep_items += [("(%s) (%s)" % (a, a), [a, a]), ("(%s) (%s) (%s)" % (a, b, a), [a, b, a]), ("(%s) (2 * %s)" % (a, a), [a, a]),
+                      ("(%s * 2) (%s / %s)" % (a, b, a), [a, b, a]), ("(%s) (%s) (%s) (%s)" % (b, a, a, b), [b, a, a, b]),
+                      ("(%s / %s) (%s)" % (a, a, a), [a, a, a])]
+    rrep = vlib.run_impl(["Q %s d" % vlib.hx(q) for q, _ in rep_items])
+    for (q, want), r in zip(rep_items, rrep):
+        res = r.get("results") or []
+        got = [d["phrase"] for d in r.get("desc", [])]
+        if res and all("ok" in x for x in res) and got != want:
+            failures.append({"input": q, "why": "the looked-up phrases in evaluation order are %s, the descriptions report %s" % (want, got)})
+    stats["repeated_fact_queries"] = len(rep_items)
+    _, _, rcases = qcorr.build_cases([q for q, _ in rep_items], describe=True)
+    cases_on = cases_on + rcases
     _, _, mcases = qcorr.build_cases([q for q, _ in multi], describe=True)
     cases_on = cases_on + mcases
     # spellings of one phrase that differ only in case, among them the words the index's query syntax treats as operators when
